@@ -1,4 +1,6 @@
 """C19 - stream / stream-collection consistency: MEMO (sort cache), WHO (member map), DERIVED."""
+import ast
+
 from ..core.model import AnalysisError, Program
 from ..core.report import CheckContext
 from ..core.resolve import Resolver
@@ -25,7 +27,6 @@ def analyse(ctx: CheckContext, p: Program):
     # the member map is the dict-typed source initialised with {} in __init__
     init = sc.methods["__init__"]
     maps = []
-    import ast
     for n in ast.walk(init.node):
         tgt = n.target if isinstance(n, ast.AnnAssign) else (n.targets[0] if isinstance(n, ast.Assign) else None)
         if tgt is not None and isinstance(getattr(n, "value", None), ast.Dict) and classflow.self_attr(tgt, "self") in pat.sources:
@@ -34,6 +35,44 @@ def analyse(ctx: CheckContext, p: Program):
         raise AnalysisError(f"StreamCollection: member map not identified ({maps})")
     ctx.info["member_map"] = maps[0]
     classflow.check_who_member_map(ctx, r, sc, maps[0])
+    # concatenation holds every member of both operands: the result is fed from the member maps of BOTH operands
+    addf = sc.methods.get("__add__")
+    if addf is None:
+        ctx.error("StreamCollection.__add__ missing")
+    else:
+        other = addf.pos_params[1] if len(addf.pos_params) > 1 else None
+        fed = set()
+        for n in ast.walk(addf.node):
+            src = None
+            if isinstance(n, ast.For):
+                src = n.iter
+            elif isinstance(n, ast.Call) and isinstance(n.func, ast.Attribute) and n.func.attr in ("add_many", "update", "extend") and n.args:
+                src = n.args[0]
+            elif isinstance(n, ast.comprehension):
+                src = n.iter
+            if src is not None:
+                for x in ast.walk(src):
+                    if isinstance(x, ast.Attribute) and x.attr == maps[0] and isinstance(x.value, ast.Name):
+                        fed.add(x.value.id)
+                    if isinstance(x, ast.Name) and x.id in (addf.pos_params[0], other) and src is x:
+                        fed.add(x.id)       # iterating the collection itself
+        ok = {addf.pos_params[0], other} <= fed
+        ctx.ob("WHO-CONCAT", f"{addf.qualname}", addf.loc, ok,
+               "" if ok else f"concatenation feeds the result from {sorted(fed)} only: members of the other operand are lost")
+    # nobody in the package switches overwrite prevention off
+    inserter = [f for f in sc.methods.values() if f.name == "add"]
+    if inserter:
+        ins = inserter[0]
+        flag = next((a for a in ins.pos_params + ins.kwonly_params if isinstance(ins.default_of(a), ast.Constant) and ins.default_of(a).value is True), None)
+        for f in p.all_funcs:
+            if isinstance(f.node, ast.Lambda) or f.cls is sc:
+                continue
+            for call, tg in r.calls_of(f):
+                if ins in tg or (isinstance(call.func, ast.Attribute) and call.func.attr in ("add", "add_many") and any(k.arg == flag for k in call.keywords)):
+                    for k in call.keywords:
+                        if k.arg == flag and isinstance(k.value, ast.Constant) and not k.value.value:
+                            ctx.ob("WHO", f"{f.qualname}:{ast.unparse(call)[:80]}", f"{f.module.relpath}:{call.lineno}", False,
+                                   f"{f.name} inserts into a stream collection with overwrite prevention switched off: a member with the same key is silently replaced")
     # len / contains report the member map, not the cache
     for nm in ("__len__", "__contains__"):
         f = sc.methods.get(nm)
@@ -72,6 +111,10 @@ def run(ctx: CheckContext):
                 "    def __iter__(self):\n        self._ensure_sorted()\n", "    def __iter__(self):\n", "MEMO-M2")
     run_control(ctx, "C19/replace-direct-store", analyse, p.root, sc,
                 "            self.add(stream)\n\n    def remove", "            self._streams[stream.name] = stream\n\n    def remove", "WHO")
+    run_control(ctx, "C19/concat-drops-other", analyse, p.root, sc,
+                "        for stream in other._streams.values():\n            combined.add(stream)\n", "", "WHO-CONCAT")
+    run_control(ctx, "C19/overwrite-from-outside", analyse, p.root, "OpenPinch/classes/zone.py",
+                "                hs_dst.add(s, key)", "                hs_dst.add(s, key, prevent_overwrite=False)", "WHO")
     run_control(ctx, "C19/dt_cont-setter-no-recompute", analyse, p.root, stp,
                 "        self._dt_cont = value\n        self._update_attributes()\n", "        self._dt_cont = value\n", "DERIVED")
     run_control(ctx, "C19/cold-shift-sign", analyse, p.root, stp,
